@@ -381,4 +381,35 @@ theorem C16_setup_witness :
     (setupRun (withArrivalAt (setupOrder false) 1)).received = true
     ∧ (setupRun (withArrivalAt (setupOrder false) 1)).forwarded = false := by decide
 
+/-! ### pilots with sub-agents (round 16) -/
+
+theorem wiredSides_false (pilots : List (Nat × Nat)) : wiredSides false pilots = 0 :: pilots.map (·.1) := by
+  unfold wiredSides
+  congr 1
+  induction pilots with
+  | nil => rfl
+  | cons p ps ih =>
+    simp only [List.flatMap_cons, List.map_cons, Bool.false_eq_true, if_false, List.singleton_append] at ih ⊢
+    rw [ih]
+
+/-- **C16 for pilots with sub-agents**: a sub-agent session does not install forwarders (`Gen.subAgentsCrosswire`: its
+    initialisation path does not reach `_crosswire_proxy`, read from session.py), so whatever the number of sub-agents
+    of each pilot, every side carries ONE set of forwarders and a forwarded message reaches every other side exactly once -/
+theorem C16_subagents (pilots : List (Nat × Nat)) (hn : (pilots.map (·.1)).Nodup) (h0 : 0 ∉ pilots.map (·.1))
+    (fuel : Nat) (s : Nat) (hs : s ∈ wiredSides Gen.subAgentsCrosswire pilots) (m : Msg)
+    (hf : m.fwd = some true ∧ (m.origin = none ∨ m.origin = some s)) :
+    ∀ t ∈ wiredSides Gen.subAgentsCrosswire pilots, t ≠ s →
+      deliveries (localPub (wiredSides Gen.subAgentsCrosswire pilots) (fuel + 2) s m) t = 1 := by
+  have e : Gen.subAgentsCrosswire = false := by decide
+  rw [e] at hs ⊢
+  rw [wiredSides_false] at hs ⊢
+  have hnd : (0 :: pilots.map (·.1)).Nodup := List.nodup_cons.mpr ⟨h0, hn⟩
+  exact (C16 (0 :: pilots.map (·.1)) hnd fuel s hs m).2.1 hf
+
+/-- were sub-agent sessions to crosswire, the pilot with one sub-agent would receive a forwarded message of the client twice -/
+theorem C16_subagents_witness :
+    deliveries (localPub (wiredSides true [(1, 1), (2, 0)]) 2 0 ⟨none, some true, 7⟩) 1 = 2
+    ∧ deliveries (localPub (wiredSides true [(1, 1), (2, 0)]) 2 0 ⟨none, some true, 7⟩) 2 = 1
+    ∧ deliveries (localPub (wiredSides false [(1, 1), (2, 0)]) 2 0 ⟨none, some true, 7⟩) 1 = 1 := by decide
+
 end RPVerif.C16
